@@ -553,22 +553,37 @@ func compileV2Metadata(tables []TableMetadata, logger StdLogger) {
 
 		for _, columnName := range table.OrderedColumns {
 			column := table.Columns[columnName]
+			// the component index comes from the schema tables: a column whose
+			// index does not fit the key it belongs to is left out of the key
 			if column.Kind == ColumnPartitionKey {
-				table.PartitionKey[column.ComponentIndex] = column
+				if i := column.ComponentIndex; i >= 0 && i < len(table.PartitionKey) {
+					table.PartitionKey[i] = column
+				}
 			} else if column.Kind == ColumnClusteringKey {
-				table.ClusteringColumns[column.ComponentIndex] = column
+				if i := column.ComponentIndex; i >= 0 && i < len(table.ClusteringColumns) {
+					table.ClusteringColumns[i] = column
+				}
 			}
 		}
 	}
 }
 
-// returns the count of coluns with the given "kind" value.
+// returns the count of coluns with the given "kind" value: one more than the
+// highest component index, but never more than there are columns of that kind.
 func componentColumnCountOfType(columns map[string]*ColumnMetadata, kind ColumnKind) int {
 	maxComponentIndex := -1
+	count := 0
 	for _, column := range columns {
-		if column.Kind == kind && column.ComponentIndex > maxComponentIndex {
+		if column.Kind != kind {
+			continue
+		}
+		count++
+		if column.ComponentIndex > maxComponentIndex {
 			maxComponentIndex = column.ComponentIndex
 		}
+	}
+	if maxComponentIndex >= count {
+		return count
 	}
 	return maxComponentIndex + 1
 }
